@@ -155,7 +155,7 @@ def closed_events(ctx):
         for d in (2, 3, 4):
             lo = Fraction(-1) if fam == 'Werner' else Fraction(-1, d * d - 1)
             thr = Fraction(1, d) if fam == 'Werner' else Fraction(1, d + 1)
-            grid = sorted({lo, lo / 2, Fraction(0), thr / 2, thr, thr + Fraction(1, 100), (thr + 1) / 2, Fraction(9, 10), Fraction(1) if fam == 'Isotropic' else Fraction(99, 100)})
+            grid = sorted({lo, lo / 2, Fraction(0), thr / 2, thr, thr + Fraction(1, 100), (thr + 1) / 2, Fraction(9, 10), Fraction(99, 100), Fraction(1)})
             for a in grid:
                 for fn in fns:
                     try:
